@@ -51,7 +51,7 @@ from ..branch import (
 )
 from ..controldir import ControlDir
 from ..decorators import only_raises
-from ..lock import LogicalLockResult, _RelockDebugMixin
+from ..lock import LogicalLockResult, _RelockDebugMixin, cant_unlock_not_held
 from ..trace import mutter
 from . import bzrdir, lockable_files
 from .repository import MetaDirRepository
@@ -253,6 +253,9 @@ class BzrBranch(Branch, _RelockDebugMixin):
     @only_raises(errors.LockNotHeld, errors.LockBroken)
     def unlock(self):
         """Release any locks held by this branch."""
+        if not self.control_files.is_locked():
+            # refuse before touching the repository: its lock is not ours
+            return cant_unlock_not_held(self)
         if self.control_files._lock_count == 1 and self.conf_store is not None:
             self.conf_store.save_changes()
         try:
